@@ -348,7 +348,7 @@ func TestVerifC13(t *testing.T) {
 	faults := []string{"drop", "drop-after-stanza", "graceful-close", "write-side-dead", "stream-error-other", "stream-error-conflict"}
 	var scs []hx.Scenario
 	add := func(c c13cfg) {
-		scs = append(scs, hx.Scenario{Name: c.name(), Opt: vrt.Options{Bound: thoroughBound(1), Horizon: 200000}, Body: c13body(c), Verdict: c13verdict})
+		scs = append(scs, hx.Scenario{Name: c.name(), Opt: vrt.Options{Bound: thoroughBound(1), Horizon: 30000}, Body: c13body(c), Verdict: c13verdict})
 	}
 	for _, sm := range []bool{false, true} {
 		for _, f := range faults {
